@@ -38,9 +38,10 @@ def parse_string(input_string):
         for stmt in line_node.nodes:
             update_node_loc(stmt, line_loc)
 
-            if isinstance(stmt, IfStmt):
-                # the statements of a single-line IF cannot open,
-                # close or continue a block
+            if isinstance(stmt, (IfStmt, ElseIfStmt)):
+                # the statements of a single-line IF (and those after
+                # THEN on an ELSEIF line) cannot open, close or
+                # continue a block
                 check_single_line_if(
                     stmt, block_start_types + block_end_types)
 
@@ -100,7 +101,7 @@ def parse_string(input_string):
 
 def check_single_line_if(if_stmt, block_stmt_types):
     inner = list(if_stmt.then_stmts)
-    if if_stmt.else_clause:
+    if getattr(if_stmt, 'else_clause', None):
         inner += list(if_stmt.else_clause.stmts)
     for stmt in inner:
         if isinstance(stmt, IfStmt):
